@@ -174,7 +174,9 @@ def check_per_event_delegation(ctx, tu, cls, rule):
     for name, (op, empty_result) in PER_EVENT.items():
         for f in tu.fns_named(cls + '::' + name):
             finds = [n for n in f.calls() if (f.callee_key(n) or '').endswith('::doFindCallableList')]
-            ops = [n for n in f.calls() if (f.callee(n) or {}).get('name') == op and (f.callee_key(n) or '').split('::')[0] in ('CallbackListBase', 'HeterCallbackListBase')]
+            # (`!list->empty()` may be spelled through the list's own `operator bool`, which is defined as `!empty()`)
+            names = (op, 'operator bool') if op == 'empty' else (op,)
+            ops = [n for n in f.calls() if (f.callee(n) or {}).get('name') in names and (f.callee_key(n) or '').split('::')[0] in ('CallbackListBase', 'HeterCallbackListBase')]
             ok = len(finds) == 1 and len(ops) == 1 and arg_is_param(f, f.call_args(finds[0])[0], f.params[0]['id'])
             detail = 'lookups: %d, %s calls on a list: %d' % (len(finds), op, len(ops))
             if ok:
@@ -346,13 +348,21 @@ def check_listener_management(ctx, tu, cls, rule, inv_key='CallbackListBase::ope
     check_per_event_delegation(ctx, tu, cls, rule)
     for f in tu.fns_named(cls + '::hasAnyListener'):
         finds = [n for n in f.calls() if (f.callee_key(n) or '').endswith('::doFindCallableList')]
-        em = [n for n in f.calls() if (f.callee(n) or {}).get('name') == 'empty']
+        em = [n for n in f.calls() if (f.callee(n) or {}).get('name') in ('empty', 'operator bool') and (f.callee_key(n) or '').split('::')[0] in ('CallbackListBase', 'HeterCallbackListBase')]
         ok = len(finds) == 1 and len(em) == 1 and arg_is_param(f, f.call_args(finds[0])[0], f.params[0]['id'])
         if ok:
             try:
                 fm = F.formula(f, inline=False)
                 ats = F.atoms(fm)
-                ok = len(ats) == 2
+                la = [a for a in ats if '(' not in a]
+                oa = [a for a in ats if a not in la]
+                ok = len(ats) == 2 and len(la) == 1 and len(oa) == 1
+                if ok:
+                    # true exactly when the event has a list and that list is not empty
+                    t = la[0].replace(' ', '')
+                    has_list = ('not', ('atom', la[0])) if t.endswith('==nullptr') or t.startswith('nullptr==') else ('atom', la[0])
+                    nonempty = ('not', ('atom', oa[0])) if f.callee(em[0])['name'] == 'empty' else ('atom', oa[0])
+                    ok = F.equivalent(fm, ('and', has_list, nonempty))[0]
             except F.Unsupported:
                 ok = False
         ctx.ob(rule, f, 'hasAnyListener answers from the list of the given event', ok)
